@@ -1,12 +1,18 @@
 /-
 C05 (and the scan of C01 / C19), decision logic tied by TRANSLATION: `Gen/GuardsBitmap.lean` holds,
 rendered from /repo/field/bitmap.go and /repo/message.go on every run, the Boolean
-`IsBitmapPresenceBit` and `IsSet` return, the early exits of `Set`, and — for the element loop of
-`Message.unpack` — its loop condition, the condition under which an iteration is skipped and the
-condition under which it fails. The hand-written model takes exactly those decisions.
+`IsBitmapPresenceBit` and `IsSet` return, the early exits of `Set`, the error / break conditions
+of the block loop of `Bitmap.Unpack`, and — for the element loops of `Message.pack` and
+`Message.unpack` — their loop conditions, the conditions under which an iteration is skipped and
+the conditions under which it fails. The hand-written model takes exactly those decisions.
+
+The proofs unfold a generated list into the proposition it denotes (`guards_to_prop`) and leave the
+rest to case analysis on the Boolean parameters and `omega`, so that they do not depend on how the
+source arranges its checks.
 -/
 import Iso8583.Gen.GuardsBitmap
 import Iso8583.Model.Message
+import Iso8583.Lemmas.GuardTactics
 
 namespace Iso8583.GuardsBitmap
 open Iso8583 Iso8583.Gen.Guards Bitmap
@@ -15,90 +21,62 @@ open Iso8583 Iso8583.Gen.Guards Bitmap
 first bit of every block -/
 theorem isPresenceBit_translated (bm : Bitmap) (n : Nat) :
     bm.isPresenceBit n = bitmap_IsBitmapPresenceBit_value (!bm.auto) n bm.blockLen := by
-  unfold isPresenceBit bitmap_IsBitmapPresenceBit_value
-  have h1 : ((n : Int) ≤ 0) ↔ ¬ (n > 0) := by omega
   have h2 : ((n : Int) % ((bm.blockLen : Int) * 8) = 1) ↔ n % (bm.blockLen * 8) = 1 := by
     rw [show ((bm.blockLen : Int) * 8) = ((bm.blockLen * 8 : Nat) : Int) by push_cast; rfl]
     omega
+  have h1 : ((n : Int) ≤ 0) ↔ ¬ (n > 0) := by omega
+  unfold isPresenceBit bitmap_IsBitmapPresenceBit_value
   cases ha : bm.auto <;> by_cases hn : n > 0 <;> by_cases hm : n % (bm.blockLen * 8) = 1 <;>
-    simp [ha, hn, hm, h1, h2] <;> omega
+    simp [hn, hm, h1, h2] <;> omega
 
 /-- `Bitmap.IsSet`: out of range is "not set", otherwise the bit -/
 theorem isSet_translated (bm : Bitmap) (n : Nat) :
     bm.isSet n = bitmap_IsSet_value n bm.data.length ((bm.data.getD ((n - 1) / 8) 0 &&& mask n) != 0) := by
+  have e1 : ((n : Int) ≤ 0) ↔ n = 0 := by omega
+  have e2 : ((n : Int) > (bm.data.length : Int) * 8) ↔ n > bm.data.length * 8 := by omega
   unfold isSet bitmap_IsSet_value
-  have h1 : ((n : Int) ≤ 0) ↔ n = 0 := by omega
-  have h2 : ((n : Int) > (bm.data.length : Int) * 8) ↔ n > bm.data.length * 8 := by omega
-  simp only [Bool.or_eq_true, decide_eq_true_eq, h1, h2]
+  simp only [e1, e2]
+  by_cases a : n = 0 <;> by_cases b : n > bm.data.length * 8 <;> simp [a, b]
+
+theorem set_exits_iff (auto : Bool) (n dataLen blockLen : Nat) (i : Int) :
+    (bitmap_Set_exits (!auto) n dataLen blockLen i).any id = true ↔ (n = 0 ∨ (n > dataLen * 8 ∧ auto = false)) := by
+  unfold bitmap_Set_exits
+  cases auto <;> guards_to_prop <;> guards_done
 
 /-- `Bitmap.Set`: its early exits (`n ≤ 0`; beyond the data of a bitmap that does not expand)
 leave the bitmap as it is -/
 theorem set_exits_translated (bm : Bitmap) (n : Nat) (i : Int)
     (h : (bitmap_Set_exits (!bm.auto) n bm.data.length bm.blockLen i).any id = true) : bm.set n = bm := by
-  simp only [bitmap_Set_exits, List.any_cons, List.any_nil, id, Bool.or_false, Bool.or_eq_true,
-    Bool.and_eq_true, decide_eq_true_eq, Bool.not_eq_true'] at h
+  have h' := (set_exits_iff bm.auto n bm.data.length bm.blockLen i).mp h
   unfold Bitmap.set
-  rcases h with h | ⟨h1, h2⟩
-  · have : n = 0 := by omega
-    simp [this]
-  · have : n > bm.data.length * 8 := by omega
-    by_cases h0 : n = 0
+  rcases h' with h0 | ⟨h1, h2⟩
+  · simp [h0]
+  · by_cases h0 : n = 0
     · simp [h0]
-    · simp [h0, this, h2]
+    · simp [h0, h1, h2]
 
 /-- and when no exit applies `Set` changes the data (model: the two remaining branches) -/
 theorem set_no_exit_translated (bm : Bitmap) (n : Nat) (i : Int)
     (h : (bitmap_Set_exits (!bm.auto) n bm.data.length bm.blockLen i).any id = false) :
     n ≠ 0 ∧ (n > bm.data.length * 8 → bm.auto = true) := by
-  simp only [bitmap_Set_exits, List.any_cons, List.any_nil, id, Bool.or_false, Bool.or_eq_false_iff,
-    Bool.and_eq_false_imp, decide_eq_false_iff_not, decide_eq_true_eq, Bool.not_eq_false'] at h
-  refine ⟨by omega, fun hgt => ?_⟩
-  have := h.2 (by omega)
-  simpa using this
-
-/-! ### the element loop of `Message.unpack` = `MsgSpec.scan` -/
-
-open MsgSpec in
-/-- the loop runs for `i = 2 … Len` inclusive: `scan` is started with `Len - 1` iterations at 2,
-i.e. it visits exactly the `i ≥ 2` for which the source's loop condition `i <= Len` holds -/
-theorem loop_bound_translated (bmLen i : Nat) (hi : 2 ≤ i) (p s f : Bool) :
-    (message_unpack_loops i bmLen p s f).all id = true ↔ i < 2 + (bmLen - 1) := by
-  simp only [message_unpack_loops, List.all_cons, List.all_nil, id, Bool.and_true, decide_eq_true_eq]
-  omega
-
-open MsgSpec in
-/-- an iteration is skipped exactly under the source's `continue` condition -/
-theorem scan_skip_translated (spec : MsgSpec) (bm : Bitmap) (n i : Nat) (src : Bytes) (off : Nat)
-    (acc : List (Nat × Value))
-    (h : (message_unpack_skips i bm.len (bm.isPresenceBit i) (bm.isSet i) (lookupId i spec.fields).isSome).any id = true) :
-    scan spec bm (n + 1) i src off acc = scan spec bm n (i + 1) src off acc := by
-  simp only [message_unpack_skips, List.any_cons, List.any_nil, id, Bool.or_false] at h
-  simp [scan, h]
-
-open MsgSpec in
-/-- an iteration fails with the element's id exactly under the source's error condition (a set
-bit for which the spec defines no field), when it is not skipped -/
-theorem scan_guard_translated (spec : MsgSpec) (bm : Bitmap) (n i : Nat) (src : Bytes) (off : Nat)
-    (acc : List (Nat × Value))
-    (hs : (message_unpack_skips i bm.len (bm.isPresenceBit i) (bm.isSet i) (lookupId i spec.fields).isSome).any id = false)
-    (h : (message_unpack_guards i bm.len (bm.isPresenceBit i) (bm.isSet i) (lookupId i spec.fields).isSome).any id = true) :
-    scan spec bm (n + 1) i src off acc = .err [natToDec i] := by
-  simp only [message_unpack_skips, List.any_cons, List.any_nil, id, Bool.or_false] at hs
-  simp only [message_unpack_guards, List.any_cons, List.any_nil, id, Bool.or_false, Bool.and_eq_true,
-    Bool.not_eq_true', Option.isSome_eq_false_iff, Option.isNone_iff_eq_none] at h
-  obtain ⟨⟨_, hset⟩, hnone⟩ := h
-  simp [scan, hs, hset, hnone]
-
-open MsgSpec in
-/-- a bit that is not set (and is not a continuation bit) is stepped over -/
-theorem scan_unset_translated (spec : MsgSpec) (bm : Bitmap) (n i : Nat) (src : Bytes) (off : Nat)
-    (acc : List (Nat × Value)) (hp : bm.isPresenceBit i = false) (hs : bm.isSet i = false) :
-    scan spec bm (n + 1) i src off acc = scan spec bm n (i + 1) src off acc := by
-  simp [scan, hp, hs]
-
-
+  have hn : ¬ ((bitmap_Set_exits (!bm.auto) n bm.data.length bm.blockLen i).any id = true) := by simp [h]
+  have h' := fun x => hn ((set_exits_iff bm.auto n bm.data.length bm.blockLen i).mpr x)
+  refine ⟨fun h0 => h' (Or.inl h0), fun hgt => ?_⟩
+  cases ha : bm.auto with
+  | true => rfl
+  | false => exact absurd (Or.inr ⟨hgt, ha⟩) h'
 
 /-! ### the block loop of `Bitmap.Unpack` = `Bitmap.unpackLoop` -/
+
+theorem unpack_guards_iff (dae fb : Bool) (decodedLen : Nat) :
+    (bitmap_Unpack_guards dae decodedLen fb).any id = true ↔ decodedLen = 0 := by
+  unfold bitmap_Unpack_guards
+  cases dae <;> cases fb <;> guards_to_prop <;> guards_done
+
+theorem unpack_breaks_iff (dae fb : Bool) (decodedLen : Nat) :
+    (bitmap_Unpack_breaks dae decodedLen fb).any id = true ↔ (decodedLen ≠ 0 ∧ (dae = true ∨ fb = true)) := by
+  unfold bitmap_Unpack_breaks
+  cases dae <;> cases fb <;> guards_to_prop <;> guards_done
 
 /-- one iteration, once the encoder has decoded a block: an empty block is the source's error
 condition; the loop is left under its `break` condition (no expansion, or the first bit of the
@@ -110,73 +88,160 @@ theorem unpackLoop_step_translated (enc : Enc) (minLen : Nat) (auto : Bool) (fue
       else if (bitmap_Unpack_breaks (!auto) decoded.length (decide ((decoded.headD 0).toNat < 128))).any id
         then .ok (acc ++ decoded, read + r)
       else unpackLoop enc minLen auto fuel (rest.drop r) (acc ++ decoded) (read + r) := by
-  simp only [unpackLoop, hd, bitmap_Unpack_guards, bitmap_Unpack_breaks, List.any_cons, List.any_nil, id,
-    Bool.or_false, decide_eq_true_eq]
+  simp only [unpackLoop, hd]
   cases decoded with
-  | nil => simp
+  | nil =>
+    have hg : (bitmap_Unpack_guards (!auto) (([] : Bytes).length) (decide ((([] : Bytes).headD 0).toNat < 128))).any id = true :=
+      (unpack_guards_iff _ _ 0).mpr rfl
+    rw [if_pos hg]
   | cons first tl =>
-    have h0 : ¬ ((tl.length : Int) + 1 = 0) := by omega
+    have hne : (first :: tl).length ≠ 0 := by simp
+    have hg : ¬ ((bitmap_Unpack_guards (!auto) ((first :: tl).length) (decide (((first :: tl).headD 0).toNat < 128))).any id = true) :=
+      fun h => hne ((unpack_guards_iff _ _ _).mp h)
+    rw [if_neg hg]
     by_cases hb : auto = false ∨ first.toNat < 128
-    · have hb' : auto = false ∨ decide (first.toNat < 128) = true := by
+    · have hd' : (!auto) = true ∨ decide (((first :: tl).headD 0).toNat < 128) = true := by
         rcases hb with h | h
-        · exact Or.inl h
+        · exact Or.inl (by simp [h])
         · exact Or.inr (by simp [h])
-      simp [h0, hb, hb']
-    · have hb' : ¬ (auto = false ∨ decide (first.toNat < 128) = true) := by
+      have hbk := (unpack_breaks_iff (!auto) (decide (((first :: tl).headD 0).toNat < 128)) (first :: tl).length).mpr ⟨hne, hd'⟩
+      have hl : (!auto || decide (first.toNat < 128)) = true := by
+        rcases hb with h | h <;> simp [h]
+      rw [if_pos hbk]
+      show (if (!auto || decide (first.toNat < 128)) = true then _ else _) = _
+      rw [if_pos hl]
+    · have hd' : ¬ ((!auto) = true ∨ decide (((first :: tl).headD 0).toNat < 128) = true) := by
         intro h
         rcases h with h | h
-        · exact hb (Or.inl h)
+        · exact hb (Or.inl (by simpa using h))
         · exact hb (Or.inr (by simpa using h))
-      simp [h0, hb, hb']
+      have hbk : ¬ ((bitmap_Unpack_breaks (!auto) ((first :: tl).length) (decide (((first :: tl).headD 0).toNat < 128))).any id = true) :=
+        fun h => hd' ((unpack_breaks_iff _ _ _).mp h).2
+      have hl : ¬ ((!auto || decide (first.toNat < 128)) = true) := by
+        intro h
+        simp only [Bool.or_eq_true, Bool.not_eq_true', decide_eq_true_eq] at h
+        exact hb h
+      rw [if_neg hbk]
+      show (if (!auto || decide (first.toNat < 128)) = true then _ else _) = _
+      rw [if_neg hl]
+
+/-! ### the element loop of `Message.unpack` = `MsgSpec.scan` -/
+
+/-- the loop runs for `i = 2 … Len` inclusive: `scan` is started with `Len - 1` iterations at 2,
+i.e. it visits exactly the `i ≥ 2` for which the source's loop condition holds -/
+theorem loop_bound_translated (bmLen i : Nat) (hi : 2 ≤ i) (p s f : Bool) :
+    (message_unpack_loops i bmLen p s f).all id = true ↔ i < 2 + (bmLen - 1) := by
+  unfold message_unpack_loops
+  cases p <;> cases s <;> cases f <;> guards_to_prop <;> guards_done
+
+theorem unpack_skips_iff (i bmLen : Int) (p s f : Bool) (hs : s = true) :
+    (message_unpack_skips i bmLen p s f).any id = true ↔ p = true := by
+  unfold message_unpack_skips
+  subst hs
+  cases p <;> cases f <;> guards_to_prop
+
+theorem unpack_guards_msg_iff (i bmLen : Int) (p s f : Bool) :
+    (message_unpack_guards i bmLen p s f).any id = true ↔ (p = false ∧ s = true ∧ f = false) := by
+  unfold message_unpack_guards
+  cases p <;> cases s <;> cases f <;> guards_to_prop
+
+open MsgSpec in
+/-- an iteration at a continuation-bit position is skipped: the source's `continue` condition
+(for a set bit; an unset bit is stepped over by `scan_unset_translated`) -/
+theorem scan_skip_translated (spec : MsgSpec) (bm : Bitmap) (n i : Nat) (src : Bytes) (off : Nat)
+    (acc : List (Nat × Value))
+    (h : (message_unpack_skips i bm.len (bm.isPresenceBit i) true (lookupId i spec.fields).isSome).any id = true) :
+    scan spec bm (n + 1) i src off acc = scan spec bm n (i + 1) src off acc := by
+  have hp := (unpack_skips_iff _ _ _ _ _ rfl).mp h
+  simp [scan, hp]
+
+open MsgSpec in
+/-- an iteration fails with the element's id exactly under the source's error condition (a set
+bit, not a continuation bit, for which the spec defines no field) -/
+theorem scan_guard_translated (spec : MsgSpec) (bm : Bitmap) (n i : Nat) (src : Bytes) (off : Nat)
+    (acc : List (Nat × Value))
+    (h : (message_unpack_guards i bm.len (bm.isPresenceBit i) (bm.isSet i) (lookupId i spec.fields).isSome).any id = true) :
+    scan spec bm (n + 1) i src off acc = .err [natToDec i] := by
+  obtain ⟨hp, hs, hf⟩ := (unpack_guards_msg_iff _ _ _ _ _).mp h
+  have hnone : lookupId i spec.fields = none := by
+    cases hl : lookupId i spec.fields with
+    | none => rfl
+    | some v => simp [hl] at hf
+  simp [scan, hp, hs, hnone]
+
+open MsgSpec in
+/-- a bit that is not set (and is not a continuation bit) is stepped over -/
+theorem scan_unset_translated (spec : MsgSpec) (bm : Bitmap) (n i : Nat) (src : Bytes) (off : Nat)
+    (acc : List (Nat × Value)) (hp : bm.isPresenceBit i = false) (hs : bm.isSet i = false) :
+    scan spec bm (n + 1) i src off acc = scan spec bm n (i + 1) src off acc := by
+  simp [scan, hp, hs]
 
 /-! ### the two loops of `Message.pack` = `MsgSpec.setBits`, `MsgSpec.packFields` -/
 
+/-- all `continue` conditions of `Message.pack` together: an k below 2 or at a continuation position -/
+theorem pack_skips_iff (k : Nat) (p s f : Bool) :
+    (message_pack_skips k p s f).any id = true ↔ (k < 2 ∨ p = true) := by
+  unfold message_pack_skips
+  cases p <;> cases s <;> cases f <;> guards_to_prop <;> guards_done
+
+/-- the error condition of the first loop (the bit is not set after `Set`), with the second loop's
+lookup succeeding -/
+theorem pack_guards_first_iff (k : Nat) (p s : Bool) :
+    (message_pack_guards k p s true).any id = true ↔ (¬ k < 2 ∧ p = false ∧ s = false) := by
+  unfold message_pack_guards
+  cases p <;> cases s <;> guards_to_prop <;> guards_done
+
+/-- the error condition of the second loop (no field for the k), with the first loop's bit set -/
+theorem pack_guards_second_iff (k : Nat) (p f : Bool) (hid : 2 ≤ k) :
+    (message_pack_guards k p true f).any id = true ↔ (p = false ∧ f = false) := by
+  unfold message_pack_guards
+  cases p <;> cases f <;> guards_to_prop <;> guards_done
+
 open MsgSpec in
-/-- first loop: an id below 2 or at a continuation position is stepped over (source: `continue`) -/
-theorem setBits_skip_translated (id : Nat) (rest : List Nat) (bm : Bitmap) (s f : Bool)
-    (h : (message_pack_skips id (bm.isPresenceBit id) s f).getD 0 false = true) :
-    setBits (id :: rest) bm = setBits rest bm := by
-  simp only [message_pack_skips, List.getD_cons_zero, Bool.or_eq_true, decide_eq_true_eq] at h
-  have : (decide (id < 2) || bm.isPresenceBit id) = true := by
-    rcases h with h | h
-    · have : id < 2 := by omega
-      simp [this]
-    · simp [h]
+/-- first loop: an k below 2 or at a continuation position is stepped over (source: `continue`) -/
+theorem setBits_skip_translated (k : Nat) (rest : List Nat) (bm : Bitmap) (s f : Bool)
+    (h : (message_pack_skips k (bm.isPresenceBit k) s f).any id = true) :
+    setBits (k :: rest) bm = setBits rest bm := by
+  have h' := (pack_skips_iff _ _ _ _).mp h
+  have : (decide (k < 2) || bm.isPresenceBit k) = true := by
+    rcases h' with h' | h'
+    · simp [h']
+    · simp [h']
   simp [setBits, this]
 
 open MsgSpec in
-/-- first loop: an id the bitmap can not represent (not set after `Set`) is the error of the
-source's first condition -/
-theorem setBits_guard_translated (id : Nat) (rest : List Nat) (bm : Bitmap) (f : Bool)
-    (h : (message_pack_guards id (bm.isPresenceBit id) ((bm.set id).isSet id) f).getD 0 false = true) :
-    setBits (id :: rest) bm = .err := by
-  simp only [message_pack_guards, List.getD_cons_zero, Bool.and_eq_true, Bool.not_eq_true', Bool.or_eq_false_iff,
-    decide_eq_false_iff_not] at h
-  obtain ⟨⟨h1, h2⟩, h3⟩ := h
-  have : ¬ id < 2 := by omega
-  simp [setBits, this, h2, h3]
+/-- first loop: an k the bitmap can not represent (not set after `Set`) is the error of the source -/
+theorem setBits_guard_translated (k : Nat) (rest : List Nat) (bm : Bitmap)
+    (h : (message_pack_guards k (bm.isPresenceBit k) ((bm.set k).isSet k) true).any id = true) :
+    setBits (k :: rest) bm = .err := by
+  obtain ⟨h1, h2, h3⟩ := (pack_guards_first_iff _ _ _).mp h
+  simp [setBits, h1, h2, h3]
 
 open MsgSpec in
 /-- second loop: data elements at continuation positions are not packed (source: `continue`);
-the bitmap field itself (id 1) is packed before the loop in the model -/
+the bitmap field itself (k 1) is packed before the loop in the model -/
 theorem packFields_skip_translated (spec : MsgSpec) (bm : Bitmap) (i : Nat) (v : Value) (rest : List (Nat × Value))
-    (s f : Bool) (h : (message_pack_skips i (bm.isPresenceBit i) s f).getD 1 false = true) :
+    (s f : Bool) (hi : 2 ≤ i) (h : (message_pack_skips i (bm.isPresenceBit i) s f).any id = true) :
     packFields spec bm ((i, v) :: rest) = packFields spec bm rest := by
-  simp only [message_pack_skips, List.getD_cons_succ, List.getD_cons_zero, Bool.and_eq_true, decide_eq_true_eq] at h
-  simp [packFields, h.2]
+  have h' := (pack_skips_iff _ _ _ _).mp h
+  have hp : bm.isPresenceBit i = true := by
+    rcases h' with h' | h'
+    · omega
+    · exact h'
+  simp [packFields, hp]
 
 open MsgSpec in
-/-- second loop: a populated id without a field definition is the error of the source's second
-condition -/
+/-- second loop: a populated k without a field definition is the error of the source -/
 theorem packFields_guard_translated (spec : MsgSpec) (bm : Bitmap) (i : Nat) (v : Value) (rest : List (Nat × Value))
-    (s : Bool) (hi : i ≠ 1)
-    (h : (message_pack_guards i (bm.isPresenceBit i) s (lookupId i spec.fields).isSome).getD 1 false = true) :
+    (hi : 2 ≤ i)
+    (h : (message_pack_guards i (bm.isPresenceBit i) true (lookupId i spec.fields).isSome).any id = true) :
     packFields spec bm ((i, v) :: rest) = .err := by
-  simp only [message_pack_guards, List.getD_cons_succ, List.getD_cons_zero, Bool.and_eq_true, Bool.not_eq_true',
-    Bool.and_eq_false_imp, decide_eq_true_eq, Option.isSome_eq_false_iff, Option.isNone_iff_eq_none] at h
-  obtain ⟨h1, h2⟩ := h
-  have hp : bm.isPresenceBit i = false := h1 (by omega)
-  simp [packFields, hp, h2]
+  obtain ⟨hp, hf⟩ := (pack_guards_second_iff _ _ _ hi).mp h
+  have hnone : lookupId i spec.fields = none := by
+    cases hl : lookupId i spec.fields with
+    | none => rfl
+    | some v => simp [hl] at hf
+  simp [packFields, hp, hnone]
 
 /-! non-vacuity -/
 example : bitmap_IsBitmapPresenceBit_value false 65 8 = true ∧ bitmap_IsBitmapPresenceBit_value false 64 8 = false ∧
